@@ -192,6 +192,10 @@ impl Gen {
             Kind::Resize | Kind::SignExtend => {
                 let target = if ovf { ml + 1 + self.rng.below(130) as usize } else { self.len_upto(ml) };
                 st.a = target as u64;
+                if ovf && self.rng.chance(1, 10) {
+                    st.b = u64::MAX;
+                    st.a = self.rng.below(200);
+                }
                 if kind == Kind::Resize || target > n {
                     self.plen[h] = target.min(ml);
                 }
@@ -240,6 +244,11 @@ impl Gen {
                     st.form = 5;
                     st.b = self.rng.below(4096);
                 }
+                if ovf && self.rng.chance(1, 5) {
+                    // C19 only: an upper bound below the true count (the invariant len <= capacity is all that is judged)
+                    st.form = 8;
+                    st.b = self.rng.next();
+                }
                 if self.cfg.iter_panic && self.rng.chance(1, 4) {
                     st.a = 1 + self.rng.next() % 1000;
                 }
@@ -262,6 +271,10 @@ impl Gen {
             Kind::Zeros | Kind::Ones | Kind::Repeat => {
                 let t = if ovf { ml + 1 + self.rng.below(130) as usize } else { self.len_upto(ml) };
                 st.a = t as u64;
+                if ovf && self.rng.chance(1, 8) {
+                    st.b = u64::MAX;
+                    st.a = self.rng.below(200);
+                }
                 self.plen[h] = t.min(ml);
             }
             Kind::WithCapacity => {
@@ -328,7 +341,9 @@ impl Gen {
             st.bit = self.rng.bool();
             st.form = self.rng.below(4) as u8;
             st.a = self.rng.below(6);
-            st.wide = match self.rng.below(6) {
+            let wb = WORD_BITS[self.tids[h] as usize] as u128;
+            st.wide = match self.rng.below(8) {
+                6 | 7 => wb * (1 + self.rng.below((n as u64 / wb as u64).max(1)) as u128),
                 0 => 0,
                 1 => n as u128,
                 2 => (n as u128).saturating_sub(1),
@@ -344,9 +359,11 @@ impl Gen {
             st.bit = self.rng.bool();
         } else if r < 95 {
             st = Step::new(if self.rng.bool() { Kind::Rotl } else { Kind::Rotr }, h as u8);
-            st.a = match self.rng.below(3) {
+            st.a = match self.rng.below(5) {
                 0 => n as u64,
                 1 => 0,
+                2 => 64 * self.rng.below((n / 64 + 1) as u64),
+                3 => 8 * self.rng.below((n / 8 + 1) as u64),
                 _ => self.rng.next(),
             };
         } else {
